@@ -167,48 +167,61 @@ fn on_enum(inp: &mut syn::DeriveInput) -> syn::Result<proc_macro2::TokenStream> 
 }
 
 fn on_fields(fields: &Fields, has_self: bool, encoding: Encoding) -> syn::Result<Vec<proc_macro2::TokenStream>> {
+    // How a field value is accessed: `&self.name`, `&self.0` or (in enum variants) `&name`.
+    let access = |field: &Field| -> proc_macro2::TokenStream {
+        let ident = &field.ident;
+        if has_self {
+            if field.is_name {
+                quote!(&self.#ident)
+            } else {
+                let i = syn::Index::from(field.pos);
+                quote!(&self.#i)
+            }
+        } else {
+            quote!(&#ident)
+        }
+    };
+
     let steps = match encoding {
         Encoding::Map => {
             let mut steps = Vec::new();
-            let len = fields.fields().len();
-            steps.push(quote!(#len.cbor_len(__ctx777)));
+            // The map header is sized by the number of entries actually written, i.e. non-nil fields.
+            let mut tests = Vec::new();
+            for field in fields.fields() {
+                if field.attrs.skip() {
+                    continue
+                }
+                let is_nil = is_nil(&field.typ, field.attrs.codec());
+                let value  = access(field);
+                tests.push(quote! {
+                    if !#is_nil(#value) {
+                        __n777 += 1
+                    }
+                })
+            }
+            steps.push(quote! {
+                ({
+                    let mut __n777 = 0usize;
+                    #(#tests)*
+                    __n777.cbor_len(__ctx777)
+                })
+            });
             for field in fields.fields() {
                 if field.attrs.skip() {
                     continue
                 }
                 let cbor_len = cbor_len(field.attrs.cbor_len(), field.attrs.codec());
                 let is_nil   = is_nil(&field.typ, field.attrs.codec());
-                let ident    = &field.ident;
                 let idx      = field.index;
                 let tag      = on_tag(&field.attrs);
-                if has_self {
-                    if field.is_name {
-                        steps.push(quote! {
-                            + if #is_nil(&self.#ident) {
-                                0
-                            } else {
-                                #idx.cbor_len(__ctx777) + #tag + #cbor_len(&self.#ident, __ctx777)
-                            }
-                        })
+                let value    = access(field);
+                steps.push(quote! {
+                    + if #is_nil(#value) {
+                        0
                     } else {
-                        let i = syn::Index::from(field.pos);
-                        steps.push(quote! {
-                            + if #is_nil(&self.#i) {
-                                0
-                            } else {
-                                #idx.cbor_len(__ctx777) + #tag + #cbor_len(&self.#i, __ctx777)
-                            }
-                        })
+                        #idx.cbor_len(__ctx777) + #tag + #cbor_len(#value, __ctx777)
                     }
-                } else {
-                    steps.push(quote! {
-                        + if #is_nil(&#ident) {
-                            0
-                        } else {
-                            #idx.cbor_len(__ctx777) + #tag + #cbor_len(&#ident, __ctx777)
-                        }
-                    })
-                }
+                })
             }
             steps
         }
@@ -217,6 +230,10 @@ fn on_fields(fields: &Fields, has_self: bool, encoding: Encoding) -> syn::Result
             steps.push(quote! {
                 let mut __num777 = 0;
                 let mut __len777 = 0;
+                // Nil fields in front of a non-nil one are written too (with their tag). Every array
+                // position between two non-nil fields is counted as one byte below, this is what the
+                // nil fields among them need on top of that.
+                let mut __nil777 = 0;
             });
             for field in fields.fields() {
                 if field.attrs.skip() {
@@ -227,33 +244,17 @@ fn on_fields(fields: &Fields, has_self: bool, encoding: Encoding) -> syn::Result
                     .map_err(|_| syn::Error::new(field.index.span(), "index does not fit into usize"))?;
                 let cbor_len = cbor_len(field.attrs.cbor_len(), field.attrs.codec());
                 let is_nil   = is_nil(&field.typ, field.attrs.codec());
-                let ident    = &field.ident;
                 let tag      = on_tag(&field.attrs);
-                if has_self {
-                    if field.is_name {
-                        steps.push(quote! {
-                            if !#is_nil(&self.#ident) {
-                                __len777 += (#n - __num777) + #tag + #cbor_len(&self.#ident, __ctx777);
-                                __num777 = #n + 1
-                            }
-                        })
+                let value    = access(field);
+                steps.push(quote! {
+                    if !#is_nil(#value) {
+                        __len777 += (#n - __num777) + __nil777 + #tag + #cbor_len(#value, __ctx777);
+                        __num777 = #n + 1;
+                        __nil777 = 0
                     } else {
-                        let i = syn::Index::from(field.pos);
-                        steps.push(quote! {
-                            if !#is_nil(&self.#i) {
-                                __len777 += (#n - __num777) + #tag + #cbor_len(&self.#i, __ctx777);
-                                __num777 = #n + 1
-                            }
-                        })
+                        __nil777 += (#tag + #cbor_len(#value, __ctx777)).saturating_sub(1)
                     }
-                } else {
-                    steps.push(quote! {
-                        if !#is_nil(&#ident) {
-                            __len777 += (#n - __num777) + #tag + #cbor_len(&#ident, __ctx777);
-                            __num777 = #n + 1
-                        }
-                    })
-                }
+                })
             }
             steps.push(quote! { __num777.cbor_len(__ctx777) + __len777 });
             steps
